@@ -236,15 +236,23 @@ func mergeValues(opts *options, old, v value) (value, Error) {
 	}
 
 	// check if new and old value evaluate to sub-configurations. If one is no
-	// sub-configuration, use new value only.
+	// sub-configuration, use new value only. Each of the two is evaluated on its own:
+	// the references it passes through are no longer being evaluated afterwards (two
+	// settings that refer to one namespace are no cycle).
+	active := opts.activeFields
+	defer func() { opts.activeFields = active }()
+
+	opts.activeFields = newFieldSet(active)
 	subOld, err := old.toConfig(opts)
 	if err != nil {
 		return v, nil
 	}
+	opts.activeFields = newFieldSet(active)
 	subV, err := v.toConfig(opts)
 	if err != nil {
 		return v, nil
 	}
+	opts.activeFields = active
 	if _, own := old.(cfgSub); !own {
 		// old is a reference (or another lazily evaluated value): what it resolved
 		// to belongs to the setting it points at. Merge into a copy of it.
